@@ -31,3 +31,18 @@ Definition spec_max_conc (g : geom) (w : win) (now : N) (h : list ev_t) : N :=
     if in_window g w now (fst e) then
       match snd e with WConc c => N.max c acc | _ => acc end
     else acc) 0 h.
+
+(** ** The whole-array count (BucketLeapArray::count_with_time): the events of kind [ev] whose
+    bucket is still valid at [now] (not older than one ring interval) and has not been recycled
+    for a later bucket of the same slot. *)
+Definition latest_in_slot (g : geom) (h : list ev_t) (t : N) : bool :=
+  forallb (fun e' : ev_t => negb ((idx g (fst e') =? idx g t) && (start g t <? start g (fst e')))) h.
+
+Definition spec_count (g : geom) (now : N) (ev : mevent) (h : list ev_t) : N :=
+  fold_right (fun (e : ev_t) acc =>
+    match snd e with
+    | WAdd ev' n =>
+        if mevent_eqb ev' ev && negb (deprecated now (iv g) (start g (fst e))) && latest_in_slot g h (fst e)
+        then n + acc else acc
+    | WConc _ => acc
+    end) 0 h.
